@@ -53,6 +53,11 @@ pub fn archive_tiles(n: usize) -> Vec<(u64, Vec<u8>)> {
         .map(|i| {
             id += 1 + rng.below(1 << 18);
             let mut c = id.to_le_bytes().to_vec();
+            if n == 23 {
+                // the "large data" archive: 23 tiles of 20 to 42 KB, about 700 KB of tile data
+                c.extend(rng.bytes(20_000 + 1000 * i));
+                return (id, c);
+            }
             if i % 5 == 4 {
                 c = vec![9, 9, 9]; // duplicates
             } else {
@@ -82,7 +87,7 @@ pub fn big_tile_archive() -> Vec<u8> {
     let mut rng = Rng::new(9);
     let mut pm = PMTiles::<std::io::Cursor<Vec<u8>>>::default();
     pm.internal_compression = comp_of(2);
-    for (i, len) in [70_000usize, 65_536, 100_159, 10, 131_073, 8191, 65_537].iter().enumerate() {
+    for (i, len) in [70_000usize, 65_536, 100_159, 10, 131_073, 8191, 262_147, 65_537, 531_443].iter().enumerate() {
         pm.add_tile(100 + 3 * i as u64, rng.bytes(*len)).expect("add");
     }
     let mut cur = std::io::Cursor::new(Vec::new());
@@ -360,7 +365,14 @@ pub fn drive_faults(_seed: u64, tier: &str, out: &mut Out) {
 pub fn drive_crash(_seed: u64, tier: &str, out: &mut Out) {
     let mut total = 0u64;
     let mut rebuilt = 0u64;
-    for s in scenarios(tier).into_iter().filter(|s| s.kind == "arch_write" || s.kind == "arch_rewrite") {
+    let mut scs: Vec<Scen> = scenarios(tier).into_iter().filter(|s| s.kind == "arch_write" || s.kind == "arch_rewrite").collect();
+    // archives whose tile data runs to hundreds of kilobytes (a writer may treat large sections differently)
+    for (comp, is_async) in [(1u8, false), (2, true), (2, false), (1, true)] {
+        for kind in ["arch_write", "arch_rewrite"] {
+            scs.push(Scen { name: format!("{kind}/c{comp}/n23/{}", if is_async { "async" } else { "sync" }), kind, comp, n: 23, is_async });
+        }
+    }
+    for s in scs {
         let (ci, co) = (new_ctl(), new_ctl());
         co.lock().expect("ctl").keep_bytes = true;
         let base = run(&s, &ci, &co, 0);
